@@ -343,3 +343,13 @@ add("C18", "P", R, "        for atom in self._atoms_gro:\n            yield atom
 add("C06", "P", R, "        for atom in self._atoms_gro:\n            yield atom", "        yield from self._atoms_gro", "loop-and-yield written as yield from")
 add("C20", "P", CLI, "    if args.mol is None:\n        molecules = []\n    else:\n        molecules = args.mol", "    molecules = args.mol\n    if molecules is None:\n        molecules = []", "default-then-override")
 add("C08", "P", B, "        chi2 = np.sum(distances.min(axis=1))\n        n_cg_far = len(mol2) - len(set(distances.argmin(axis=1)))", "        chi2 = np.min(distances, axis=1).sum()\n        n_cg_far = len(mol2) - np.unique(np.argmin(distances, axis=1)).size", "reductions written the other way round")
+# ----------------------------------------------------------------------------- rules added with seed batch 8 (DESIGN 10.18)
+add("C20", "B", CLI, "    for coordinate_file in sorted(coordinate_files):\n        for molecule_name, molecule_info in added_molecues.items():",
+    "    species = iter(added_molecues.items())\n    for coordinate_file in sorted(coordinate_files):\n        for molecule_name, molecule_info in species:",
+    "one-shot iterator over the species shared by every candidate file")
+add("C20", "P", CLI, "    for coordinate_file in sorted(coordinate_files):\n        for molecule_name, molecule_info in added_molecues.items():",
+    "    species = list(added_molecues.items())\n    for coordinate_file in sorted(coordinate_files):\n        for molecule_name, molecule_info in species:",
+    "species materialised once as a list and reused")
+add("C06", "B", B, "        if _accept_metropolis(chi2, chi2_new):",
+    "        if not (chi2_new > chi2 and np.random.rand() > 0.01*chi2/chi2_new):",
+    "acceptance written out in negative form: a NaN energy is accepted")
